@@ -190,8 +190,7 @@ def _queue_removal_nodes(g):
     return out
 
 
-def rule_r2(ctx):
-    rid = "C04.R2"
+def rule_r2(ctx, rid="C04.R2"):
     ctx.r.rule(rid, "ownership protocol: after service() removed a request from the queue no path reaches an output-state access")
     p = ctx.p
     cg = get_callgraph(p)
@@ -367,7 +366,14 @@ def rule_r5(ctx):
             ctx.r.violation(rid, key_of(f, None, "not-head-removal"), "service() removes %s, not the head" % norm(c), f.loc(n.ast))
 
 
-RULES = [rule_r1, rule_r2, rule_r3, rule_r4, rule_r5]
+def rule_r6(ctx):
+    """Shared with C14.R4: the dispatcher hands tasks out in submission order."""
+    from .c14 import rule_r4
+
+    rule_r4(ctx, rid="C04.R6")
+
+
+RULES = [rule_r1, rule_r2, rule_r3, rule_r4, rule_r5, rule_r6]
 
 from ..selftest import M, T, V  # noqa: E402
 
@@ -384,6 +390,7 @@ selftest = [
     M("dispatch-outside-lock", "channel.py", "                self.requests.pop(0)\n\n                if self.connected and self.requests:\n                    self.server.add_task(self)", "                self.requests.pop(0)\n\n            if self.connected and self.requests:\n                self.server.add_task(self)", "R4"),
     M("serve-last", "channel.py", "        request = self.requests[0]\n", "        request = self.requests[-1]\n", "R5"),
     M("handle_close-unlocked", "channel.py", "        with self.outbuf_lock:\n            for outbuf in self.outbufs:", "        if True:\n            for outbuf in self.outbufs:", None),
+    M("dispatcher-lifo", "task.py", "                task = self.queue.popleft()\n            try:", "                task = self.queue.pop()\n            try:", "R6"),
     T("with-to-acquire-release", "channel.py", "            with self.requests_lock:\n                self.close_when_flushed = True\n\n                for request in self.requests:\n                    request.close()\n                self.requests = []\n", "            self.requests_lock.acquire()\n            try:\n                self.close_when_flushed = True\n\n                for request in self.requests:\n                    request.close()\n                self.requests = []\n            finally:\n                self.requests_lock.release()\n"),
     T("dispatch-lt-2", "channel.py", "if len(self.requests) == 1:", "if len(self.requests) < 2:"),
     T("worker-dispatch-len", "channel.py", "                if self.connected and self.requests:\n                    self.server.add_task(self)", "                if self.connected and len(self.requests) > 0:\n                    self.server.add_task(self)"),
